@@ -17,13 +17,14 @@ DIAL = {"plaintext": "plaintext", "tlsnocert": "tls-nocert", "selfsignedc1": "se
         "validc1plusselfsignedsigner2": "valid-c1+selfsigned-signer-2"}
 
 
-def run_apidrv(plan, wd, tag, timeout=900):
+def run_apidrv(plan, wd, tag, timeout=900, dirk=None):
+    """dirk: path of the real dirk binary - the calls are then served by the shipped program (own config reading and wiring)."""
     exe = build_harness("apidrv")
     f = os.path.join(wd, tag + ".in.json")
     o = os.path.join(wd, tag + ".out.ndjson")
     json.dump(plan, open(f, "w"))
     try:
-        p = subprocess.run([exe, "-scenarios", f, "-out", o], cwd=wd, env=dict(os.environ, TMPDIR=wd), stdout=subprocess.PIPE, stderr=subprocess.PIPE, text=True, timeout=timeout)
+        p = subprocess.run([exe, "-scenarios", f, "-out", o] + (["-dirk", dirk] if dirk else []), cwd=wd, env=dict(os.environ, TMPDIR=wd), stdout=subprocess.PIPE, stderr=subprocess.PIPE, text=True, timeout=timeout)
         rc, err = p.returncode, p.stderr
     except subprocess.TimeoutExpired:
         rc, err = -99, "timeout"
@@ -67,6 +68,18 @@ def matrix_phase(prop, tier, wd, verdict, select=None, min_served=20, min_refuse
             if rc != 0:
                 raise Inconclusive("apidrv (%s) exited %s: %s" % (mode, rc, err[-400:]))
             evs_all += evs
+        # the same cells against the SHIPPED PROGRAM: the real dirk binary started on a configuration file, certificate files and a
+        # filesystem wallet store written by the harness (main.go's reading of certificates, permissions, peers and passphrases included)
+        bcalls = [calls[0]] + [dict(c, id="bin-" + c["id"]) for c in calls[1:]]
+        for c in bcalls[1:]:
+            calls_by_id[c["id"]] = c
+        evs, rc, err = run_apidrv(dict(calls=bcalls, server_mode=mode), wd, "%s_%d_bin" % (prop.lower(), mi), dirk=build_dirk())
+        if rc != 0:
+            raise Inconclusive("apidrv against the dirk binary (%s) exited %s: %s" % (mode, rc, err[-400:]))
+        nbin = sum(1 for e in evs if e["ev"] == "ApiCall" and e["id"] != "setup")
+        if nbin != len(bcalls) - 1:
+            raise Inconclusive("the dirk binary answered %d of %d calls" % (nbin, len(bcalls) - 1))
+        evs_all += evs
     inv = {v: k for k, v in DIAL.items()}
     lines = []
     served = refused = 0
@@ -111,7 +124,8 @@ def run_c19(tier, seed):
         rc = verdict.finish()
         cov = dict(states=m["states"], transitions=m["transitions"], traces_validated_against_impl=len(lines),
                    samples=lines[:3] + [l for l in lines if l["data"]][:2], cells=m["cells"], cells_obtaining_data=m["served"], cells_refused_at_transport=m["refused"],
-                   credential_kinds=sorted(DIAL), server_certificate_setups=m["modes"], exhaustive=True, checker_cmd="tlc ApiTable / ApiTrace; harness cmd/apidrv (real services/api/grpc over TLS on 127.0.0.1)")
+                   credential_kinds=sorted(DIAL), server_certificate_setups=m["modes"], exhaustive=True, served_by=["in-process services/api/grpc", "the dirk binary (config file, certificate files, filesystem wallets)"],
+                   checker_cmd="tlc ApiTable / ApiTrace; harness cmd/apidrv (real services/api/grpc over TLS on 127.0.0.1, in-process and as the real dirk binary)")
         write_evidence(prop, tier, seed, "model_checking", cov, time.time() - t0, violations=len(verdict.violations),
                        assumptions=["the model is a finite decision table; TLC's contribution is the completeness of the matrix and the judgement of the recorded calls",
                                     "Go's crypto/tls and gRPC transport are trusted; certificates are ECDSA P-256 minted by the harness"])
@@ -152,7 +166,8 @@ def replay(prop, path):
                 print("VIOLATION property=C20 replay=%s" % path)
                 return 1
             return 0
-        evs, rc, err = run_apidrv(dict(calls=obj["calls"], server_mode=obj.get("server_mode", "bare")), wd, "replay")
+        binary = any(str(c.get("id", "")).startswith("bin-") for c in obj["calls"])
+        evs, rc, err = run_apidrv(dict(calls=obj["calls"], server_mode=obj.get("server_mode", "bare")), wd, "replay", dirk=build_dirk() if binary else None)
         if rc != 0:
             print(err[-400:])
             return 2
